@@ -186,6 +186,9 @@ def run(tier):
         if bi == 0:
             ck.sample(L0[:6])
     # U: MemorySanitizer: a trainer that reads uninitialised memory returns a dictionary that depends on the heap's previous content
+    # ---- allocation failures while optimiser jobs are in flight: every job is accounted for before its context goes
+    from checks import trainfault
+    trainfault.sweep(ck, PID, tier, names=("optcover-mt", "optfast-mt", "optcover-1t"), sample=(70 if tier == "quick" else None))
     exem = core.build_exe("traindrv_msan", ["traindrv.c"], "msan")
     L = ["SAMPLES text 120 100 1500 %d" % ck.rng.randint(1, 9999), "TRAIN default 16384 0 0 0 0 0 100 0 0 3", "TRAIN optfast 8192 0 0 %d 1 2 75 0 1 3" % ck.rng.choice([12, 14, 16]),
          "TRAIN fastcover 8192 200 8 %d 1 0 100 0 0 3" % ck.rng.choice([12, 16]), "TRAIN cover 8192 200 8 0 0 0 100 0 0 3", "TRAIN optcover 4096 0 0 0 0 2 75 0 1 3", "TRAIN legacy 8192 9 0 0 0 0 100 0 0 3", "TRAIN finalize 8192 0 0 0 0 0 100 0 0 3"]
@@ -235,6 +238,9 @@ def run(tier):
 
 
 def replay(path):
+    if os.path.basename(path).startswith("train-fault-"):
+        from checks import trainfault
+        return trainfault.replay(path)
     if path.endswith(".json"):
         print(open(path).read()[:3000]); return 1
     sched = "sched" in os.path.basename(path)
